@@ -20,12 +20,12 @@ theorem hdrByte_of_alpha (b : UInt8) (h : hdrAlpha b = true) : HdrByte b := by
   set_option maxRecDepth 100000 in decide
 
 /-- the main loop on the pieces of a header text `X` found at offset `cp0` -/
-theorem run_pieces (pat : Bytes) (k : Kw) (ks : List Kw) (hkws : ∀ k' ∈ k :: ks, KwOK k')
+theorem run_pieces (pat : Bytes) (k : Kw) (ks : List Kw) (hkws : ∀ k' ∈ k :: ks, KwW k')
     (qt : Bytes) (hq : qt = [] ∨ qt = [63]) (pp0 : Nat) (hdrop : pat.drop pp0 = kwText k ks ++ qt)
     (pl : Int) (hpl : pl = ((kwText k ks).length : Int)) (hn : Bool) (d : Int) (nums : List Int)
     (hdr X ct : Bytes) (cp0 : Nat) (hX : hdr.drop cp0 = X ++ ct) (hct : ct = [] ∨ ct = [63])
     (hbytes : ∀ b ∈ X, HdrByte b) (fuel : Nat) (hfuel : ks.length < fuel)
-    (hsmall : ∀ sol, greedy (k :: ks) (splitColon X) = some sol → ∀ o ∈ sol, ∀ v, o = some v → v < 2^31) :
+    (hsmall : hn = true → ∀ sol, greedy (k :: ks) (splitColon X) = some sol → ∀ o ∈ sol, ∀ v, o = some v → v < 2^31) :
     Good hn d (mainLoop pat hdr hn d fuel ⟨pp0, pl, cp0, X.length, brOf k, nums, 0, false⟩)
       (k :: ks) (splitColon X) nums 0 false := by
   obtain ⟨m, ms, h1, h2, h3⟩ := splitColon_spec X
@@ -41,17 +41,15 @@ theorem run_pieces (pat : Bytes) (k : Kw) (ks : List Kw) (hkws : ∀ k' ∈ k ::
     (by rw [hX, h2]) (by rw [h2]) hsmall
 
 /-- the part of `matchCommand` after the query check and the pattern prelude -/
-theorem model_run (pat : Bytes) (k : Kw) (ks : List Kw) (hkws : ∀ k' ∈ k :: ks, KwOK k')
+theorem model_run (pat : Bytes) (k : Kw) (ks : List Kw) (hkws : ∀ k' ∈ k :: ks, KwW k')
     (qt : Bytes) (hq : qt = [] ∨ qt = [63]) (pp0 : Nat) (hdrop : pat.drop pp0 = kwText k ks ++ qt)
     (pl : Int) (hpl : pl = ((kwText k ks).length : Int)) (hn : Bool) (d : Int) (nums : List Int)
     (hdr body ct : Bytes) (hhdr : hdr = body ++ ct) (hct : ct = [] ∨ ct = [63])
     (hbytes : ∀ b ∈ body, HdrByte b) (fuel : Nat) (hfuel : ks.length < fuel)
-    (hsmall : ∀ sol, modelGreedy (k :: ks) body = some sol → ∀ o ∈ sol, ∀ v, o = some v → v < 2^31) :
+    (hsmall : hn = true → ∀ sol, modelGreedy (k :: ks) body = some sol → ∀ o ∈ sol, ∀ v, o = some v → v < 2^31) :
     ∃ E : Bool × List Int × Bool,
-      (match cmdPrelude hdr ⟨pp0, pl, 0, body.length, brOf k, nums, 0, false⟩ with
-        | none => (false, nums, false)
-        | some st => ((mainLoop pat hdr hn d fuel st).1, (mainLoop pat hdr hn d fuel st).2.numbers,
-                      (mainLoop pat hdr hn d fuel st).2.oob)) = E ∧
+      runStage pat hdr hn d fuel nums false
+        (cmdPrelude hdr ⟨pp0, pl, 0, body.length, brOf k, nums, 0, false⟩) = E ∧
       E.1 = (modelGreedy (k :: ks) body).isSome ∧ E.2.2 = false ∧
       ∀ sol, modelGreedy (k :: ks) body = some sol → E.2.1 = if hn then fill nums 0 (want sol d) else nums := by
   by_cases hstrip : body.headD 0 = 58 ∧ 2 ≤ body.length
@@ -65,7 +63,7 @@ theorem model_run (pat : Bytes) (k : Kw) (ks : List Kw) (hkws : ∀ k' ∈ k :: 
     · subst hb42
       rw [cmdPrelude_star hdr body ct rest hhdr hb]
       refine ⟨_, rfl, ?_, rfl, ?_⟩
-      · simp [modelGreedy, hb]
+      · simp [modelGreedy, hb, runStage]
       · intro sol hsol; simp [modelGreedy, hb] at hsol
     · rw [cmdPrelude_strip hdr body ct rest b hhdr hb hb42]
       have hmg : modelGreedy (k :: ks) body = greedy (k :: ks) (splitColon (b :: rest)) := by
